@@ -72,7 +72,7 @@ PROPS = {
         "assumptions": ["the chunking law of the Go reader is established by correspondence (random chunkings), the prefix and limit laws by theorem"],
     },
     "C01": {
-        "modules": ["Cose.Props.C01", "Cose.Props.C01Enc", "Cose.Props.C01Sign", "Cose.Props.CwtEndToEnd"], "families": ["msg:C01", "msg:C06", "conv"], "spec_ops": ["conv.keyset", "conv.ed25519", "conv.ecdsa", "conv.ecdh", "conv.gen"],
+        "modules": ["Cose.Props.C01", "Cose.Props.C01Enc", "Cose.Props.C01Sign", "Cose.Props.C01Mac", "Cose.Props.C01EncR", "Cose.Props.CwtEndToEnd"], "families": ["msg:C01", "msg:C06", "conv"], "spec_ops": ["conv.keyset", "conv.ed25519", "conv.ecdsa", "conv.ecdh", "conv.gen"],
         "n_quick": 500, "n_thorough": 60000,
         "rule": "6 kinds x 24 algorithms x payload {nil, empty, raw of every CBOR length class, pre-encoded CBOR, typed map} x header maps (int/text labels; int, bstr, tstr, bool, array, nested-map values) "
                 "x external data {nil, empty, random} x 1-3 signers / 1-3 recipients incl. one nesting level; each produced message consumed tagged, untagged and CWT-tagged; "
@@ -97,7 +97,7 @@ PROPS = {
         "assumptions": ["AEAD security assumed; uniqueness theorems (C12) reduce an accepted change to a tag forgery"],
     },
     "C04": {
-        "modules": ["Cose.Props.C04", "Cose.Props.History"], "families": ["msg:C04", "kdf"], "spec_ops": ["msg.consume", "msg.produce", "kdf.enc"],
+        "modules": ["Cose.Props.C04", "Cose.Props.History", "Cose.Props.KdfRoundtrip"], "families": ["msg:C04", "kdf"], "spec_ops": ["msg.consume", "msg.produce", "kdf.enc"],
         "n_quick": 400, "n_thorough": 40000,
         "rule": "messages written by an independent mini-encoder with non-canonical protected buckets (non-shortest integers, reversed key order, explicit h'a0'), non-shortest heads, optional tags, "
                 "authenticated by the library's primitive over the RFC 9052 structure computed independently; recording Signer/Verifier/MACer/Encryptor wrappers expose the bytes handed to the primitive (tobe= / aad=), "
@@ -122,7 +122,7 @@ PROPS = {
         "assumptions": ["non-repetition of crypto/rand output is not a theorem: proved instead that each encryption consumes its own block of the stream"],
     },
     "C09": {
-        "modules": ["Cose.Props.C09"], "families": ["msg:C09", "kdf", "claims", "dec"], "spec_ops": ["kdf.enc", "claims.enc", "dec.bytestr", "dec.keyjson"],
+        "modules": ["Cose.Props.C09", "Cose.Props.KdfRoundtrip"], "families": ["msg:C09", "kdf", "claims", "dec"], "spec_ops": ["kdf.enc", "claims.enc", "dec.bytestr", "dec.keyjson"],
         "n_quick": 400, "n_thorough": 40000,
         "rule": "library-produced messages of the 6 kinds re-encoded (tagged and untagged input), RemoveCBORTag on tagged and CWT-tagged input; foreign non-canonical messages re-encoded then consumed again "
                 "(decode -> encode -> decode -> verify on the library, predicted by the model)",
